@@ -294,18 +294,25 @@ def e2e_reject(run, binary, tmp):
             'syncs:\n  - src: %(s)s\n    dest: %(d)s\nbogus: 1\n',
             'syncs:\n  - src: %(s)s\n    dest: %(d)s\n    dest_file_newer_behaviour: never\n',
             'syncs:\n  - src: %(s)s\n    dest: %(d)s\n    filters: 3\n',
-            'syncs:\n  - src: %(s)s\n    dest: %(d)s\n  - [\n']
+            'syncs:\n  - src: %(s)s\n    dest: %(d)s\n  - [\n',
+            # not valid UTF-8 (a YAML stream is UTF-8/16/32): a Latin-1 byte inside a value, inside a filter, inside a key, a lone continuation byte, a truncated sequence
+            'syncs:\n  - src: %(s)s\n    dest: %(d)s_caf\xe9\n',
+            'syncs:\n  - src: %(s)s\n    dest: %(d)s\n    filters: [ "-.*\\.b\xe4k" ]\n',
+            'syncs:\n  - src: %(s)s\n    dest: %(d)s\n# comment \x80\n',
+            'syncs:\n  - src: %(s)s\n    dest: %(d)s\n    f\xfflters: []\n',
+            'syncs:\n  - src: %(s)s\n    dest: %(d)s\xe2\x82\n']
     for i, b in enumerate(bads):
         d = os.path.join(tmp, 'e2e%d' % i)
         os.makedirs(os.path.join(d, 'src'))
         open(os.path.join(d, 'src', 'f'), 'w').write('x')
         spec = os.path.join(d, 'spec.yaml')
-        open(spec, 'w').write(b % {'s': os.path.join(d, 'src'), 'd': os.path.join(d, 'dest')})
-        p = subprocess.run([binary, '--spec', spec], stdout=subprocess.PIPE, stderr=subprocess.PIPE, text=True, timeout=60)
+        open(spec, 'wb').write((b % {'s': os.path.join(d, 'src'), 'd': os.path.join(d, 'dest')}).encode('latin1'))
+        p = subprocess.run([binary, '--spec', spec], stdout=subprocess.PIPE, stderr=subprocess.PIPE, text=True, errors='replace', timeout=60)
         run.count('e2e-reject')
         run.case(('e2e', b), True)
-        if p.returncode != 18 or os.path.exists(os.path.join(d, 'dest')) or not (p.stderr + p.stdout).strip():
-            run.fail('malformed spec not rejected cleanly: exit %d, dest exists=%s' % (p.returncode, os.path.exists(os.path.join(d, 'dest'))),
+        created = sorted(x for x in os.listdir(d) if x not in ('src', 'spec.yaml'))
+        if p.returncode != 18 or created or not (p.stderr + p.stdout).strip():
+            run.fail('malformed spec not rejected cleanly: exit %d, created next to the source: %r' % (p.returncode, created),
                      {'spec_text': b, 'exit': p.returncode, 'stderr': p.stderr[-500:]})
     # and a valid spec behaves like SRC DEST
     d = os.path.join(tmp, 'e2ev')
